@@ -4,6 +4,7 @@ package main
 // out of registered code is completed where the engine still knows the template and the tag).
 
 import (
+	"go/token"
 	"go/types"
 
 	"golang.org/x/tools/go/ssa"
@@ -174,6 +175,31 @@ func ruleC16Foreign(p *Prog, a *Anchors, r *Report) {
 						return true
 					}
 				}
+			case *ssa.UnOp:
+				// a result read back from its cell (functions with defers spill their results): the last store in
+				// the block of the load, else any store
+				al, ok := t.X.(*ssa.Alloc)
+				if !ok || t.Op != token.MUL {
+					return false
+				}
+				var last *ssa.Store
+				for _, in := range t.Block().Instrs {
+					if in == ssa.Instruction(t) {
+						break
+					}
+					if st, ok := in.(*ssa.Store); ok && st.Addr == ssa.Value(al) {
+						last = st
+					}
+				}
+				if last != nil {
+					return flows(last.Val)
+				}
+				for _, ref := range *al.Referrers() {
+					if st, ok := ref.(*ssa.Store); ok && st.Addr == ssa.Value(al) && flows(st.Val) {
+						return true
+					}
+				}
+				return false
 			case *ssa.MakeInterface:
 				return flows(t.X)
 			case *ssa.ChangeType:
